@@ -34,7 +34,7 @@ class C18(Prop):
                     transformer=rng.choice(["z-score", "yeo-johnson", None]), clip=rng.choice([5.0, 2.0, 0.5, 3.0]),
                     spread=rng.choice([0.0, 0.0002, 0.01]), missing=rng.random() < 0.6, calendar_days=rng.random() < 0.4,
                     x_offset=rng.choice([0, 0, -5, 7]), start_month=rng.choice([1, 6, 11, 12]), delay=rng.choice([0, 1]),
-                    bounds=rng.random() < 0.3)
+                    bounds=rng.random() < 0.3, edge=rng.choice([None, None, None, "end-holiday", "start-holiday"]))
 
     def run_impl(self, case):
         import numpy as np
@@ -65,6 +65,18 @@ class C18(Prop):
         kw = {}
         if case["bounds"]:
             kw = dict(start=idx[n // 6], end=idx[-n // 8])
+        if case.get("edge"):
+            # the usable range starts / ends exactly on an exchange holiday that has a row in the price table
+            hol0 = pandas_market_calendars.get_calendar("NYSE").holidays().holidays
+            inside = [pd.Timestamp(h) for h in hol0 if idx[0] <= pd.Timestamp(h) <= idx[-1] and pd.Timestamp(h) in idx]
+            if inside:
+                if case["edge"] == "end-holiday":
+                    kw["end"] = inside[-1]
+                    kw.pop("start", None)
+                else:
+                    kw["start"] = inside[0]
+                    kw.pop("end", None)
+                r.tags.add("range-edge-on-holiday")
         with warnings.catch_warnings():
             warnings.simplefilter("ignore")
             try:
@@ -85,7 +97,7 @@ class C18(Prop):
         # ---- the preparation after the (opaque) transformer, recomputed by the model column by column
         with warnings.catch_warnings():
             warnings.simplefilter("ignore")
-            end = env.Y.index[-1] if not case["bounds"] else min(kw["end"], Y.last_valid_index())
+            end = env.Y.index[-1] if "end" not in kw else min(kw["end"], Y.last_valid_index())
             Xr = X.reindex(X.index.union(Y.index), fill_value=np.nan)
             Xt = env.transformer.transform(Xr.loc[:end])
         for col in Xt.columns[:2]:
